@@ -434,10 +434,13 @@ class Table:
         ('raise', text) ; ('fall', None)."""
         r = self.select(w)
         if r.kind != "return":
-            return (r.kind, norm(r.result) if r.result is not None else None, r)
+            return (r.kind, norm(r.result) if r.result is not None else None, r, r.result)
         if self._boolish(r.result):
-            return ("return", bool(self.truth(self.ev(r.result, w), w)), r)
-        return ("return", self.resolve_text(r.result, w), r)
+            return ("return", bool(self.truth(self.ev(r.result, w), w)), r, None)
+        node = self.resolve(r.result, w)
+        if isinstance(node, ast.Constant):
+            return ("return", node.value, r, node)
+        return ("return", norm(node), r, node)
 
     def resolve(self, e, w) -> ast.expr:
         """Rewrite conditional sub-expressions of a value expression according to world w."""
